@@ -494,6 +494,7 @@ pub fn swarm(prop: Prop, r: &mut Rng, pools: &Pools, corpus_len: usize) -> Swarm
     // rare long-audio runs: thousands of frames / hundreds of thousands of samples, so that counters,
     // block sizes and tables sized for "typical" utterances are crossed
     let mut prelude: Vec<TOp> = Vec::new();
+    let mut exact_total = false;
     if matches!(prop, Prop::C02 | Prop::C03) && !heavy && r.chance(0.008) {
         // a quarter of them extra long (up to ~25 k frames): thresholds at 2^12, 2^13, 2^14 frames
         let extra_long = r.chance(0.25);
@@ -549,6 +550,37 @@ pub fn swarm(prop: Prop, r: &mut Rng, pools: &Pools, corpus_len: usize) -> Swarm
         }
         utts = vec![make_utt(r, corpus_len, 2)];
         nops = prelude.len() + 4;
+    }
+    // exact totals (C02): time-aligned labels chosen so that the utterance has exactly 256 / 512 / 1024 / 2048 /
+    // 4096 frames (or one more / less); the generator is pulled to the end and then asked again
+    if prop == Prop::C02 && !heavy && prelude.is_empty() && metas[0].0.nstreams >= 3 && r.chance(0.02) {
+        let v = VoiceRef::Gen(VoiceSpec { meta: metas[0].0.clone(), body: pools.body(metas[0].1, 0) });
+        let (nl, ms) = *r.pick(&[(64usize, 1u32), (64, 2), (128, 1), (32, 4), (128, 2), (64, 4), (128, 4), (128, 8)]);
+        let nl = match r.below(6) {
+            0 => nl + 1,
+            1 => nl - 1,
+            _ => nl,
+        };
+        let start = r.below(corpus_len - nl);
+        let u = Utt { lines: (start..start + nl).map(|x| x as u32).collect(), timed: ms };
+        prelude.push(TOp { task: 0, op: Op::Load { e: 0, voices: vec![v], via_files: false } });
+        prelude.push(TOp { task: 0, op: Op::Set { e: 0, s: Setter::Align(true) } });
+        prelude.push(TOp { task: 0, op: Op::Set { e: 0, s: Setter::SamplingFrequency(16000) } });
+        prelude.push(TOp { task: 0, op: Op::Set { e: 0, s: Setter::Fperiod(4) } }); // 4 frames per millisecond
+        prelude.push(TOp { task: 0, op: Op::NewGen { e: 0, g: 0, utt: u.clone() } });
+        prelude.push(TOp { task: 0, op: Op::NewGen { e: 0, g: 1, utt: u.clone() } });
+        prelude.push(TOp { task: 0, op: Op::Drain { g: 0, max: 1_000_000 } });
+        prelude.push(TOp { task: 0, op: Op::Step { g: 0, extra: 0 } });
+        prelude.push(TOp { task: 0, op: Op::Query { g: 0 } });
+        prelude.push(TOp { task: 0, op: Op::Step { g: 0, extra: 3 } });
+        prelude.push(TOp { task: 0, op: Op::Finish { g: 0 } });
+        // the second one: stop at a multiple of 256 frames, then finish
+        prelude.push(TOp { task: 0, op: Op::Drain { g: 1, max: *r.pick(&[256usize, 512, 1024, 255, 257, 511, 513]) } });
+        prelude.push(TOp { task: 0, op: Op::Query { g: 1 } });
+        prelude.push(TOp { task: 0, op: Op::Finish { g: 1 } });
+        utts = vec![u];
+        nops = prelude.len() + 6;
+        exact_total = true;
     }
     // rare marathon runs: one process lives through hundreds to thousands of calls on many distinct
     // utterances (a bounded cache overflows and evicts, a call counter crosses its threshold, a
@@ -666,6 +698,13 @@ pub fn swarm(prop: Prop, r: &mut Rng, pools: &Pools, corpus_len: usize) -> Swarm
         }
         targets.push(t);
     }
+    let mut all_bodies: Vec<u64> = metas.iter().flat_map(|m| bodies.iter().map(|k| pools.body(m.1, *k as usize)).collect::<Vec<_>>()).collect();
+    if prop == Prop::C03 && !heavy && prelude.is_empty() && r.chance(0.06) {
+        // one voice of the run's pool has a local defect (a leaf naming a PDF that does not exist): some
+        // utterances panic in the middle of a call, the others - and everything after them - must be unaffected
+        let k = r.below(all_bodies.len());
+        all_bodies[k] |= if r.chance(0.6) { crate::voicegen::DEFECT_LF0 } else { crate::voicegen::DEFECT_LPF };
+    }
     Swarm {
         ntasks: r.range(1, 6) as u8,
         nops,
@@ -673,12 +712,14 @@ pub fn swarm(prop: Prop, r: &mut Rng, pools: &Pools, corpus_len: usize) -> Swarm
             profile
         } else if marathon {
             "marathon"
+        } else if exact_total {
+            "exact_total"
         } else {
             "long_audio"
         },
         heavy,
         metas: metas.iter().map(|m| m.0.clone()).collect(),
-        bodies: metas.iter().flat_map(|m| bodies.iter().map(|k| pools.body(m.1, *k as usize)).collect::<Vec<_>>()).collect(),
+        bodies: all_bodies,
         utts,
         targets,
         w,
